@@ -60,6 +60,20 @@ def mutate_shape(rng, e, depth=0):
     return tuple(mutate_shape(rng, c, depth + 1) if rng.random() < 0.5 else c for c in e)
 
 
+def nest(op, n, leaf):
+    return ('(%s ' % op) * n + leaf + ')' * n
+
+
+# terms nested far beyond the interpreter's recursion limit
+DEEP = [
+    '(set-logic ALL)\n(declare-const y (_ BitVec 8))\n(assert (let ((z %s)) (= z y)))\n(check-sat)\n' % nest('bvnot', 3000, 'y'),
+    '(set-logic ALL)\n(declare-const %s Int)\n(assert (> x 0))\n(check-sat)\n' % nest('a', 3000, 'x'),
+    '(set-logic ALL)\n(declare-const x Int)\n(assert (> %s 0))\n(check-sat)\n' % nest('+ 1', 3000, 'x'),
+    '(set-logic ALL)\n(define-fun f ((p Int)) Int %s)\n(declare-fun %s () Int)\n(assert (> (f 1) 0))\n(check-sat)\n' % (nest('- 1', 2500, 'p'), nest('g', 1500, 'h')),
+    '(set-logic ALL)\n(declare-datatype D (%s))\n(assert (forall %s true))\n(check-sat)\n' % (nest('c', 2000, 'd'), nest('q', 2000, 'r')),
+]
+
+
 def inprocess_pipeline(impl, text):
     """Everything that runs unguarded in the main process; returns the first escaping exception or None."""
     from ddsmt import options, mutators, smtlib, nodes, strategy_ddmin, strategy_hierarchical, nodeio
@@ -148,7 +162,7 @@ def run(ctx):
     model = common.Model()
     rng = ctx.rng
     # ---- (1) malformed stream, in process
-    texts = list(CORPUS)
+    texts = list(CORPUS) + DEEP[:2]
     n1 = 1500 if ctx.thorough else 220
     while len(texts) < n1:
         k = rng.random()
@@ -296,11 +310,13 @@ def run(ctx):
                     ctx.violation('impl-violation', input=name, executable=kind, argv=args, observed='; '.join(problems),
                                   expected=f'exit status {status} and {lines} diagnostic line(s), no traceback')
         # malformed inputs through the real executables, all strategies
-        mal = rng.sample(CORPUS, 12 if ctx.thorough else 5) + [t for t in texts[len(CORPUS):len(CORPUS) + (30 if ctx.thorough else 6)]]
+        mal = rng.sample(CORPUS, 12 if ctx.thorough else 5) + [t for t in texts[len(CORPUS):len(CORPUS) + (30 if ctx.thorough else 6)]] + (DEEP if ctx.thorough else DEEP[:3])
         jobs = []
         for k, t in enumerate(mal):
             toks = [x for x in e2e.sh_tokens(t) if x not in '()']
             pred = [e2e.TOKPRED, 'all'] + (rng.sample(toks, min(len(toks), 1)) if toks else ['zzz'])
+            if t in DEEP:
+                pred = [e2e.TOKPRED, 'all', 'check-sat']      # the nest itself can go at once: the run is about surviving it, not about its length
             jobs.append(dict(text=t, opts=['--strategy', ['ddmin', 'hierarchical', 'hybrid'][k % 3], '-j', str(1 + k % 2)], cmd=pred, timeout=120))
         # (3) reachable intermediate inputs: real reductions
         for k in range(40 if ctx.thorough else 8):
